@@ -28,9 +28,16 @@ package types
 //@ func (k BandtssKeeper) GetSigningFee
 //@ trusted
 //@ ensures err == nil ==> result == signingFee(Other)
+// (what the signing group is asked to sign for a tunnel is recorded: which tunnel, which destination, which content)
+//@ ghost TSSReqTunnel Int
+//@ ghost TSSReqChain Str
+//@ ghost TSSReqAddr Str
+//@ ghost TSSReqContent TunnelSignatureOrder
 //@ func (k BandtssKeeper) CreateTunnelSigningRequest
 //@ trusted
-//@ modifies Bank, Other
+//@ may_panic calls
+//@ modifies Bank, Other, TSSReqTunnel, TSSReqChain, TSSReqAddr, TSSReqContent
+//@ ensures TSSReqTunnel == tunnelID && TSSReqChain == destinationChainID && TSSReqAddr == destinationContractAddr && (typeis(content, "*TunnelSignatureOrder") ==> TSSReqContent == unbox(content, "*TunnelSignatureOrder"))
 
 //@ func (k FeedsKeeper) GetAllPrices
 //@ trusted
